@@ -23,7 +23,7 @@
   Note `MIN % -1` does not trap (`srem` yields 0), so it is not in the set.
   Built-ins (T2), the check script and known findings are owned elsewhere.
 -/
-import RotoV.Lemmas.Scalar
+import RotoV.Lemmas.ScalarLower
 
 namespace RotoV.C10
 open RotoV RotoV.Gen RotoV.Gen.OpTables
